@@ -188,7 +188,13 @@ def exec_step(step, sess, chains, audit):
         data_dir = str(Path(sess['lab_root']) / step['data_dir_name'])
         if 'root' in step:
             step = dict(step, root=dict(step['root'], _data_dir=data_dir))
-    if op == 'build':
+    if op == 'build' and step.get('shared_from'):
+        from taskchain import Chain
+        cfg = make_config(step['root'], sess)
+        src = chains[step['shared_from']]
+        chains[cid] = Chain(cfg, shared_tasks=src._tasks if hasattr(src, '_tasks') else src._task_registry, parameter_mode=True)
+        obs['snapshot'] = snapshot(chains[cid], data_dir)
+    elif op == 'build':
         cfg = make_config(step['root'], sess)
         chains[cid] = cfg.chain(parameter_mode=step.get('parameter_mode', True))
         obs['snapshot'] = snapshot(chains[cid], data_dir)
@@ -349,6 +355,62 @@ def exec_step(step, sess, chains, audit):
         with contextlib.redirect_stdout(buf):
             migrate_to_parameter_mode(cfg, target, dry=step.get('dry', True), verbose=step.get('verbose', False))
         obs['printed_lines'] = len(buf.getvalue().splitlines())
+    elif op == 'multi_objects':
+        # MultiChain over configs given as OBJECTS that reuse one upstream Config object (the style of the repository's own tests)
+        from taskchain import Config, MultiChain, Task
+        from taskchain.parameter import Parameter
+        from ..canon import tcanon
+
+        class ObjBase(Task):
+            class Meta:
+                parameters = [Parameter('x'), Parameter('y', default=0)]
+
+            def run(self, x, y) -> dict:
+                return {'x': x, 'y': y}
+
+        class ObjMid(Task):
+            class Meta:
+                input_tasks = [ObjBase]
+                parameters = [Parameter('w', default='w0')]
+
+            def run(self, obj_base, w) -> dict:
+                return {'base': obj_base, 'w': w}
+
+        class ObjTop(Task):
+            class Meta:
+                input_tasks = [ObjMid]
+                parameters = [Parameter('z', default=1)]
+
+            def run(self, obj_mid, z) -> dict:
+                return {'mid': obj_mid, 'z': z}
+        plan = step['plan']
+        dd = Path(data_dir)
+
+        def upstream():
+            base = Config(dd, name='base', data={'tasks': [ObjBase], 'x': plan['x0']})
+            if plan.get('mid_separate'):
+                return Config(dd, name='mid', data={'tasks': [ObjMid], 'uses': [base]})
+            return base
+
+        def member(i, m, up):
+            data = {'tasks': [ObjTop] if plan.get('mid_separate') else [ObjMid, ObjTop], 'uses': [up]}
+            if 'z' in m:
+                data['z'] = m['z']
+            return Config(dd, name=f'm{i}', data=data, context=json.loads(json.dumps(m['ctx'])) if m.get('ctx') is not None else None)
+
+        def observe(chain):
+            out = {}
+            for n, t in chain.tasks.items():
+                out[n] = {'params': {pn: tcanon(p.value) for pn, p in t.params.items()}, 'key': t.name_for_persistence, 'id': id(t)}
+            for n, t in chain.tasks.items():
+                out[n]['value'] = tcanon(t.value)
+            return out
+        shared_up = upstream()
+        mc = MultiChain([member(i, m, shared_up) for i, m in enumerate(plan['members'])])
+        obs['members'] = {name: observe(ch) for name, ch in mc.chains.items()}
+        obs['standalone'] = {}
+        for i, m in enumerate(plan['members']):
+            obs['standalone'][f'm{i}'] = observe(member(i, m, upstream()).chain())
     elif op == 'snapshot':
         obs['snapshot'] = snapshot(get_chain(), data_dir, light=step.get('light', False))
     elif op == 'value':
@@ -420,6 +482,20 @@ def exec_step(step, sess, chains, audit):
     elif op == 'crash_at':
         audit.crash_at = step['index']
         audit.mut_count = 0
+    elif op == 'rename_profile':
+        # failpoint right AFTER a rename/replace returns (the publish points), via the profile hook's c_return events
+        state = {'n': 0, 'crash_at': step.get('crash_at')}
+        sess['_rename_state'] = state
+
+        def prof(frame, event, arg):
+            if event == 'c_return' and getattr(arg, '__name__', '') in ('replace', 'rename') and getattr(arg, '__module__', '') in ('posix', 'os', 'nt'):
+                if state['crash_at'] is not None and state['n'] == state['crash_at']:
+                    os._exit(137)
+                state['n'] += 1
+        sys.setprofile(prof)
+    elif op == 'rename_profile_stop':
+        sys.setprofile(None)
+        obs['rename_returns'] = sess.get('_rename_state', {}).get('n', 0)
     elif op == 'exit':
         os._exit(step.get('code', 0))
     else:
